@@ -564,6 +564,15 @@ def _bump(v: Any) -> Any:
     return None
 
 
+def _seq_indices(n: int):
+    """Positions of a sequence that get an element mutation: all of a short one; of a long one the edges, the middle and
+    a few positions deep inside (a digest over a prefix or over head/tail samples misses exactly those)."""
+    if n <= 12:
+        return range(n)
+    picks = {0, 1, 2, n // 3, n // 2, (2 * n) // 3, (5 * n) // 6, n - 5, n - 4, n - 3, n - 1}
+    return sorted(k for k in picks if 0 <= k < n)
+
+
 def _retype(v: Any) -> Any:
     """A value that compares (and hashes) EQUAL to ``v`` in Python but is a different YAML/JSON scalar: 2.0 -> 2, 2 -> 2.0,
     1 -> True, 0.0 -> -0.0 ...  None when there is none.  A type-sensitive expression (``str(n)``) or processor tells
@@ -760,6 +769,16 @@ def mutations(nodes: list, counters: Optional[Callable] = None) -> Iterator[Muta
                     mu[i]["derive"]["parameter_sweep"]["parameters"][pname] = new_src
                     yield Mutation(op, i, mu, [(i, i)], {"parameter": pname, "before": src, "after": new_src}, sweep_only=True)
             used_keys = {s["from_context"] for s in variables.values() if isinstance(s, dict) and "from_context" in s}
+            fcv = sorted(v for v, s_ in variables.items() if isinstance(s_, dict) and "from_context" in s_)
+            for a_i in range(len(fcv)):
+                for b_i in range(a_i + 1, len(fcv)):
+                    va, vb = fcv[a_i], fcv[b_i]
+                    if variables[va]["from_context"] != variables[vb]["from_context"]:
+                        # which variable reads which key is part of the sweep definition even when the SET of keys stays
+                        mu = clone()
+                        mv = mu[i]["derive"]["parameter_sweep"]["variables"]
+                        mv[va], mv[vb] = dict(mv[va], from_context=variables[vb]["from_context"]), dict(mv[vb], from_context=variables[va]["from_context"])
+                        yield Mutation("sweep_from_context_keys_exchanged", i, mu, [(i, i)], {"variables": [va, vb]}, sweep_only=True)
             for v, spec in variables.items():
                 def put(new_spec, op, **d):
                     mu = clone()
@@ -767,7 +786,7 @@ def mutations(nodes: list, counters: Optional[Callable] = None) -> Iterator[Muta
                     return Mutation(op, i, mu, [(i, i)], dict(d, variable=v, before=spec, after=new_spec), sweep_only=True)
 
                 if isinstance(spec, list):
-                    for k in range(len(spec)):
+                    for k in _seq_indices(len(spec)):
                         nv = _bump(spec[k])
                         if nv is not None:
                             yield put(spec[:k] + [nv] + spec[k + 1:], "sweep_var_sequence_element", index=k)
@@ -792,7 +811,7 @@ def mutations(nodes: list, counters: Optional[Callable] = None) -> Iterator[Muta
                         yield put(dict(spec, scale="log"), "sweep_var_scale")
                 elif isinstance(spec, dict) and "values" in spec:
                     vals = spec["values"]
-                    for k in range(len(vals)):
+                    for k in _seq_indices(len(vals)):
                         nv = _bump(vals[k])
                         if nv is not None:
                             yield put(dict(spec, values=vals[:k] + [nv] + vals[k + 1:]), "sweep_var_sequence_element", index=k)
@@ -975,6 +994,13 @@ def run_space_for(g, ctx: dict) -> dict:
         reps = 2 if mode == "by_position" else 1
         blocks.append({"mode": mode, "context": {k: [copy.deepcopy(vals[k]) for _ in range(reps)] for k in part}})
     rs: dict = {"blocks": blocks}
+    if g.chance(0.3):
+        # a block fed from a file named by a path relative to the configuration file (checks/c04 writes rs_src_<n>.csv)
+        blocks.append({"mode": "by_position", "source": {"format": "csv", "path": f"rs_src_{rng.choice([1, 2])}.csv"}})
+        rs["combine"] = "combinatorial"
+        if g.chance(0.6):
+            rs["max_runs"] = rng.choice([8, 20, 100])
+        return rs
     if g.chance(0.7):
         rs["combine"] = rng.choice(["combinatorial", "by_position"]) if all(len(next(iter(b["context"].values()))) == len(next(iter(blocks[0]["context"].values()))) for b in blocks) else "combinatorial"
     if g.chance(0.6):
@@ -984,7 +1010,7 @@ def run_space_for(g, ctx: dict) -> dict:
     return rs
 
 
-def config_case(g, i: int, fc_share: float = 0.25) -> dict:
+def config_case(g, i: int, fc_share: float = 0.25, very_long: bool = False) -> dict:
     """{"nodes", "ctx", "data", "run_space"|None, "tags"}: generated configuration for the identity checks."""
     from . import gen
 
@@ -1026,6 +1052,18 @@ def config_case(g, i: int, fc_share: float = 0.25) -> dict:
                 blk["variables"][v] = long if isinstance(spec, list) else {"values": long}
                 if "long_sequence" not in tags:
                     tags.append("long_sequence")
+    if very_long and g.chance(0.06):
+        # an explicit sequence of a few thousand values (a measured grid): every element is identity-bearing
+        for n in nodes:
+            blk = (n.get("derive") or {}).get("parameter_sweep") if isinstance(n.get("derive"), dict) else None
+            if isinstance(blk, dict) and len(blk.get("variables", {})) == 1:
+                v = next(iter(blk["variables"]))
+                spec = blk["variables"][v]
+                if isinstance(spec, list) or (isinstance(spec, dict) and "values" in spec):
+                    long = [0.5 + 0.25 * k for k in range(g.rng.choice([2100, 2600, 4100]))]
+                    blk["variables"][v] = {"values": long}
+                    tags.append("very_long_sequence")
+                    break
     rs = run_space_for(g, case["ctx"]) if g.chance(0.35) else None
     if rs is not None:
         tags.append("run_space")
